@@ -806,6 +806,9 @@ func (interp *Interpreter) cfg(root *node, sc *scope, importPath, pkgName string
 					// Do not skip assign operation if it is combined with another operator.
 				case src.rval.IsValid():
 					// Do not skip assign operation if setting from a constant value.
+				case dest.rval.IsValid():
+					// The destination is a variable of the host, not a location in the frame:
+					// do not skip the assign operation, which stores the value in the variable.
 				case isMapEntry(dest):
 					// Setting a map entry requires an additional step, do not optimize.
 					// As we only write, skip the default useless getIndexMap dest action.
